@@ -173,18 +173,20 @@ class Resolver:
             if cands:
                 inh = [n for n in cands if self.impl_of(n)[0] is None]
                 return self._pick(inh or cands, callee)
-        if len(parts) == 1 or True:
-            cands = [n for n in self.free.get(parts[-1], []) if '<impl at' not in n]
-            if len(parts) >= 2:
-                cands = [n for n in cands if n.split('::')[-2:-1] == parts[-2:-1]] or \
-                        ([] if parts[-2][0].isupper() else cands)
-            if len(parts) == 1 and ex.cur_fn:
-                # a bare function name is in the caller's module
-                mod = ex.cur_fn[-1].split('::<impl')[0]
-                mod = mod.rsplit('::', 1)[0] if '<impl' not in ex.cur_fn[-1] and '::' in mod else mod
-                same = [n for n in cands if n.rsplit('::', 1)[0] == mod or (('::' not in n) and True)]
-                if same: cands = same
-            if cands: return self._pick(cands, callee)
+        if parts[0] in ('core', 'std', 'alloc'): return None
+        cands = [n for n in self.free.get(parts[-1], []) if '<impl at' not in n]
+        if len(parts) >= 2:
+            # module-qualified free function: the MIR item path must end with the callee's path
+            suffix = '::' + '::'.join(parts)
+            cands = [n for n in cands if ('::' + n).endswith(suffix)]
+        elif ex.cur_fn:
+            # a bare function name lives in the caller's module (or the crate root)
+            cur = ex.cur_fn[-1]
+            mod = cur.split('::<impl')[0] if '<impl' in cur else (cur.split('::{closure')[0].rsplit('::', 1)[0] if '::' in cur.split('::{closure')[0] else '')
+            same = [n for n in cands if (n.rsplit('::', 1)[0] if '::' in n else '') == mod]
+            if same: cands = same
+            elif len(cands) > 1: cands = [n for n in cands if '::' not in n] or cands
+        if cands: return self._pick(cands, callee)
         return None
 
     def impl_of(self, name):
